@@ -1,8 +1,14 @@
 """C07: detection is invariant under origin rotation and rule order.
-Metamorphic runs of the real pipeline (detect_protoclusters_and_signatures, dynamic profiles, real parser):
- * rotation: protoclusters of the rotated record must be the rotated protoclusters of the original record; the
-   expected image of every area is computed by the Coq model of offset_location (extracted driver);
- * rule order: every permutation of the rule list must give the same protoclusters and definition domains."""
+Metamorphic runs of the real pipeline (detect_protoclusters_and_signatures, dynamic profiles, real parser, then
+Record.create_candidate_clusters / create_regions):
+ * rotation: protoclusters, candidate clusters and regions of the rotated record must be the rotated ones of the original
+   record, with the same kinds, products and member genes; the expected image of every area is computed by the Coq model
+   of offset_location (extracted driver);
+ * rule order: every permutation of the rule list (of the rule text where the parser admits it, and of the parsed rule
+   objects for all n! orders) must give the same protoclusters and definition domains;
+ * sub-selection / sanctioned cross-rule effect: the protoclusters of the full ruleset must be the protoclusters of each
+   rule run alone, minus those covered by a cluster of a superior rule - computed by the Coq transcription of
+   remove_redundant_protoclusters, which C07_redundancy_spec proves equal to the order-free specification."""
 import itertools
 
 import common
@@ -10,10 +16,15 @@ import detect_util
 from common import err_code
 
 PROP = 7
+PROFILES = ["a", "b", "c"]
 
 CONDITIONS = ["a", "b", "a and b", "a or c", "cds(a and b)", "a and not c", "minimum(2, [a, b, c])", "c and (a or b)",
               "cds(a or b) and c"]
 
+REGION_OVERLAP_CLASS = "rotation_origin_spanning_region_sections"
+
+
+# ------------------------------------------------------------------ generators
 
 def gen_record(rng):
     """ circular record whose genes sit in the first part of the record, so that no region reaches half of it """
@@ -47,13 +58,57 @@ def gen_record(rng):
     return length, genes, rules, hits
 
 
+def gen_chain_record(rng):
+    """ 3-4 rules forming SUPERIORS chains (r2 < r1 < r0, side branches, unrelated rules), each rule anchored on its own
+        profile so that clusters of different rules overlap partially, cover each other or just miss each other;
+        linear or circular record, genes in the first third -> (length, circular, genes, rules, profiles, hits) """
+    n_rules = rng.choice([3, 3, 4])
+    profiles = [f"p{i}" for i in range(n_rules)] + ["x"]
+    rules = []
+    for i in range(n_rules):
+        sups = []
+        if i > 0:
+            if rng.random() < 0.75:
+                sups = [f"r{i - 1}"]
+            else:
+                sups = [f"r{j}" for j in range(i) if rng.random() < 0.4]
+        sup = (" SUPERIORS " + ", ".join(sups)) if sups else ""
+        cutoff = rng.choice([1, 1, 2, 5])
+        nb = rng.choice([0, 1, 3])
+        cond = rng.choice([f"p{i}"] * 4 + [f"p{i} or x", f"cds(p{i} and x)", f"p{i} and x", f"p{i} and not x"])
+        rules.append(f"RULE r{i} CATEGORY c{sup} CUTOFF {cutoff} NEIGHBOURHOOD {nb} CONDITIONS {cond}")
+    n_genes = rng.choice([2, 3, 4, 5, 6, 8])
+    genes = []
+    pos = rng.choice([0, 100, 1500, 4000])
+    for i in range(n_genes):
+        size = rng.choice([90, 300, 900, 2400])
+        genes.append((f"g{i}", pos, pos + size, rng.choice([1, -1])))
+        pos = pos + size + rng.choice([1, 50, 200, 200, 700, 999, 1000, 1001, 1700, 2100, 6000])
+    length = genes[-1][2] * rng.choice([3, 4, 6]) + 30000
+    hits = {}
+    for name, _, _, _ in genes:
+        profs = {p for p in profiles if rng.random() < (0.3 if p == "x" else 0.45)}
+        if profs:
+            hits[name] = profs
+    if rng.random() < 0.25 and n_genes >= 2:
+        # the bridging layout: a middle-rule cluster over two genes, overlapping a cluster of its superior on one gene
+        # and covering a cluster of its inferior on the other, which the superior's cluster does not touch
+        i = rng.randrange(n_genes - 1)
+        low, top = (i, i + 1) if rng.random() < 0.5 else (i + 1, i)
+        hits[genes[low][0]] = {"p1", "p2"}
+        hits[genes[top][0]] = {"p0", "p1"}
+    return length, rng.random() < 0.5, genes, rules, profiles, hits
+
+
 def superiors_first(rules):
     """ the parser requires a superior to be defined before the rule naming it """
     seen = set()
     for text in rules:
-        words = text.split()
-        if "SUPERIORS" in words and words[words.index("SUPERIORS") + 1] not in seen:
-            return False
+        words = text.replace(",", " ").split()
+        if "SUPERIORS" in words:
+            for name in words[words.index("SUPERIORS") + 1:words.index("CUTOFF")]:
+                if name not in seen:
+                    return False
         seen.add(words[1])
     return True
 
@@ -69,15 +124,44 @@ def rotate_genes(genes, length, k):
     return out
 
 
-def run_pipeline(length, genes, rules, hits):
-    record = detect_util.make_record(length, True, [(n, [(s, e, st)]) for n, s, e, st in genes])
-    ruleset = detect_util.make_ruleset("\n".join(rules), ["a", "b", "c"], hits)
+# ------------------------------------------------------------------ running the implementation
+
+def parse_rules(rules, profiles):
+    from antismash.common.hmm_rule_parser import rule_parser
+    return rule_parser.Parser("\n".join(rules), set(profiles), {"c"}).rules
+
+
+def ruleset_from_objects(rule_objects, profiles, hits):
+    """ a ruleset listing the already parsed rules in the given order """
+    from antismash.common.hmm_rule_parser.structures import DynamicProfile, DynamicHit
+    from antismash.common.hmm_rule_parser.test.helpers import create_ruleset
+
+    def mk(profile):
+        def detect(_record, _hmmer_hits):
+            return {gene: [DynamicHit(gene, profile)] for gene, profs in hits.items() if profile in profs}
+        return DynamicProfile(profile, "d", detect)
+    return create_ruleset(tuple(rule_objects), dynamic_profiles={p: mk(p) for p in profiles})
+
+
+def names_within(record, location):
+    return tuple(sorted(cds.get_name() for cds in record.get_cds_features_within_location(location)))
+
+
+def run_pipeline(length, genes, rules, hits, circular=True, profiles=PROFILES, objects=None, areas=False):
+    """ rules: rule text lines (parsed here), or objects: parsed rules in the order to use.
+        -> protoclusters, definition domains [, candidate clusters, regions] """
+    record = detect_util.make_record(length, circular, [(n, [(s, e, st)]) for n, s, e, st in genes])
+    if objects is None:
+        ruleset = detect_util.make_ruleset("\n".join(rules), list(profiles), hits)
+    else:
+        ruleset = ruleset_from_objects(objects, profiles, hits)
     result = detect_util.detect(record, ruleset)
-    protos = sorted((p.product, tuple(detect_util.loc_parts(p.core_location)), tuple(detect_util.loc_parts(p.location)))
+    parts = detect_util.loc_parts
+    protos = sorted((p.product, tuple(parts(p.core_location)), tuple(parts(p.location)))
                     for p in result.protoclusters)
     domains = []
     for proto, cds_results in result.cds_by_cluster.items():
-        key = (proto.product, tuple(detect_util.loc_parts(proto.core_location)))
+        key = (proto.product, tuple(parts(proto.core_location)))
         for res in cds_results:
             domains.append((key, res.cds.get_name(),
                             tuple(sorted((rule, tuple(sorted(doms))) for rule, doms in res.definition_domains.items()))))
@@ -85,7 +169,20 @@ def run_pipeline(length, genes, rules, hits):
         domains.append((("outside",), res.cds.get_name(),
                         tuple(sorted((rule, tuple(sorted(doms))) for rule, doms in res.definition_domains.items()))))
     domains.sort()
-    return protos, domains
+    if not areas:
+        return protos, domains
+    members = sorted((p.product, tuple(parts(p.core_location)), names_within(record, p.core_location),
+                      names_within(record, p.location)) for p in result.protoclusters)
+    for proto in result.protoclusters:
+        record.add_protocluster(proto)
+    record.create_candidate_clusters()
+    cands = sorted((str(c.kind), tuple(sorted(p.product for p in c.protoclusters)), tuple(parts(c.location)),
+                    names_within(record, c.location)) for c in record.get_candidate_clusters())
+    record.create_regions()
+    regions = sorted((tuple(sorted(r.products)), tuple(parts(r.location)), names_within(record, r.location),
+                      tuple(sorted(tuple(parts(c.location)) for c in r.candidate_clusters)))
+                     for r in record.get_regions())
+    return protos, domains, members, cands, regions
 
 
 def enc_parts(parts):
@@ -95,52 +192,175 @@ def enc_parts(parts):
     return out
 
 
-RULE = ("circular records (genes in the first third, 2-8 genes, gaps on the cutoffs), 1-3 rules drawn from 9 condition shapes "
-        "(and/or/not/cds/minimum) with own cutoff, neighbourhood and optional SUPERIORS, parsed by the real parser; for each record "
-        "up to 6 rotations that cut no gene (incl. rotations that make a protocluster span the new origin) and up to 6 "
-        "permutations of the rule list.  Non-trivial = the base run reports at least one protocluster; distinct by (record, "
-        "rotation | permutation)")
+RULE = ("(A) rule order: linear and circular records, 2-8 genes with gaps around the cutoffs, 3-4 rules forming SUPERIORS "
+        "chains/branches (each rule anchored on its own profile, 8 condition shapes, own cutoff and neighbourhood; a quarter of "
+        "the records carry the bridging layout low < mid < top where mid overlaps top and covers low), parsed by the real "
+        "parser: up to 4 admissible permutations of the rule text, up to 6 of the n! orders of the parsed rules (always the "
+        "reversed one), every rule run alone + Coq removal of covered clusters compared with the full run; plus the "
+        "permutations of the 1-3 rule records of (B).  (B) rotation: circular records (genes in the first third, 2-8 genes, "
+        "1-3 rules from 9 condition shapes incl. and/or/not/cds/minimum, no SUPERIORS), up to 6 rotations that cut no gene "
+        "(incl. ones that make a protocluster, candidate or region span the new origin): protoclusters, candidate clusters "
+        "(kind, products, members) and regions (products, members, candidates) compared with the Coq-rotated base areas.  "
+        "Non-trivial = the base run reports at least one protocluster; distinct by (record, rotation | permutation)")
 
+
+# ------------------------------------------------------------------ rule order
+
+def check_orders(chk, rng, length, circular, genes, rules, profiles, hits, base, object_orders=True):
+    """ base = (protoclusters, domains) of the rules as listed """
+    info = {"length": length, "circular": circular, "genes": genes, "hits": {k: sorted(v) for k, v in hits.items()},
+            "rules": rules, "profiles": list(profiles)}
+    perms = [p for p in list(itertools.permutations(rules))[1:] if superiors_first(p)]
+    rng.shuffle(perms)
+    for perm in perms[:4]:
+        chk.evaluations += 1
+        chk.count("rule_text_permutations")
+        try:
+            got = run_pipeline(length, genes, list(perm), hits, circular, profiles)
+        except Exception as exc:  # pylint: disable=broad-except
+            got = ("error", type(exc).__name__)
+        if got != base:
+            chk.violation("counterexample", "detection depends on the order of the rules",
+                          {"theorem_or_correspondence": "C07_rule_order / detect_protoclusters_and_signatures",
+                           "input": dict(info, permuted=list(perm)), "base": list(base), "permuted_result": got})
+            return False
+    if not object_orders:
+        return True
+    objects = parse_rules(rules, profiles)
+    orders = list(itertools.permutations(range(len(objects))))[1:]
+    reverse = orders[-1]
+    rng.shuffle(orders)
+    chosen = [reverse] + [o for o in orders if o != reverse][:5]
+    for order in chosen:
+        chk.evaluations += 1
+        chk.count("rule_object_permutations")
+        try:
+            got = run_pipeline(length, genes, None, hits, circular, profiles, objects=[objects[i] for i in order])
+        except Exception as exc:  # pylint: disable=broad-except
+            got = ("error", type(exc).__name__)
+        if got != base:
+            chk.violation("counterexample", "detection depends on the order in which the (parsed) rules are listed",
+                          {"theorem_or_correspondence": "C07_rule_order, C07_redundancy_order / detect_protoclusters_and_signatures",
+                           "input": dict(info, rule_order=[objects[i].name for i in order]), "base": list(base),
+                           "permuted_result": got})
+            return False
+    return True
+
+
+def solo_case(length, circular, genes, rules, profiles, hits):
+    """ every rule run alone (the parsed rule keeps its SUPERIORS list) -> flat case for the Coq removal, and the
+        clusters by (rule, core) """
+    objects = parse_rules(rules, profiles)
+    index = {rule.name: i for i, rule in enumerate(objects)}
+    clusters = []
+    for rule in objects:
+        protos, _ = run_pipeline(length, genes, None, hits, circular, profiles, objects=[rule])
+        clusters.extend(protos)
+    flat = [PROP, 2, len(objects)]
+    for rule in objects:
+        flat += [index[rule.name], len(rule.superiors)] + [index[name] for name in rule.superiors]
+    flat.append(len(clusters))
+    usable = True
+    for product, core, _ in clusters:
+        inside = [i for i, (_, s, e, _) in enumerate(genes) if any(ps <= s and e <= pe for ps, pe in core)]
+        if len(core) != 1 or not inside:
+            usable = False
+            break
+        flat += [index[product]] + enc_parts(core) + [inside[0], inside[-1]]
+    return (flat if usable else None), clusters, [rule.name for rule in objects]
+
+
+def decode_kept(model, names):
+    """ model output of fn 2: n, then per cluster: rule nparts (s e strand)* first last """
+    pos = 1
+    out = []
+    for _ in range(model[0]):
+        rule, nparts = model[pos], model[pos + 1]
+        pos += 2
+        parts = []
+        for _ in range(nparts):
+            parts.append((model[pos], model[pos + 1]))
+            pos += 3
+        pos += 2
+        out.append((names[rule], tuple(parts)))
+    return out
+
+
+# ------------------------------------------------------------------ the run
 
 def run(chk):
     if not chk.build_and_audit():
         return chk.finish(RULE)
     rng = chk.rng
-    n_records = 800 if chk.tier == "quick" else 12000
+    quick = chk.tier == "quick"
+    known_classes = {f["class"] for f in common.load_known_findings("C07") if f["status"] == "known"}
+
+    # ---- (A) rule order, sub-selection and the sanctioned removal of covered clusters
+    solo_cases, solo_meta = [], []
+    order_violations = 0
+    for _ in range(450 if quick else 6000):
+        length, circular, genes, rules, profiles, hits = gen_chain_record(rng)
+        try:
+            base = run_pipeline(length, genes, rules, hits, circular, profiles)
+        except Exception as exc:  # pylint: disable=broad-except
+            chk.count("base_error_" + type(exc).__name__)
+            continue
+        chk.count("chain_records")
+        if order_violations < 3 and not check_orders(chk, rng, length, circular, genes, rules, profiles, hits, base):
+            order_violations += 1
+        flat, clusters, names = solo_case(length, circular, genes, rules, profiles, hits)
+        if flat is None:
+            chk.count("solo_not_encodable")
+            continue
+        solo_cases.append(flat)
+        solo_meta.append({"length": length, "circular": circular, "genes": genes, "rules": rules, "profiles": profiles,
+                          "hits": {k: sorted(v) for k, v in hits.items()}, "clusters_of_rules_run_alone": clusters,
+                          "full_run": base[0], "names": names})
+        chk.note_case(flat, len(clusters) > 0, solo_meta[-1] if len(chk.samples) < 2 else None)
+    kept_outs = common.run_driver(solo_cases)
+    chk.crosscheck_vm(solo_cases, kept_outs, k=60 if quick else 300)
+    removal_mismatches = removed_total = 0
+    for flat, model, info in zip(solo_cases, kept_outs, solo_meta):
+        kept = sorted(decode_kept(model, info["names"]))
+        full_of = {(p, core): full for p, core, full in info["clusters_of_rules_run_alone"]}
+        want = sorted((p, core, full_of[(p, core)]) for p, core in kept)
+        removed_total += len(info["clusters_of_rules_run_alone"]) - len(kept)
+        if want != info["full_run"]:
+            removal_mismatches += 1
+            if removal_mismatches <= 2:
+                chk.violation("counterexample", "the protoclusters of the full ruleset are not those of each rule run alone minus "
+                              "the ones covered by a cluster of a superior rule",
+                              {"theorem_or_correspondence": "C07_redundancy_spec, C07_rule_subselection / "
+                                                            "detect_protoclusters_and_signatures",
+                               "input": info, "expected_by_specification": want, "implementation": info["full_run"],
+                               "flat": flat})
+    chk.extra["removal_mismatches"] = removal_mismatches
+    chk.count("clusters_removed_as_covered_by_superior", removed_total)
+
+    # ---- (B) rotation (and the rule order of these records)
     cases, impl_outs, meta = [], [], []
-    for _ in range(n_records):
+    for _ in range(450 if quick else 7000):
         length, genes, rules, hits = gen_record(rng)
         try:
-            base, base_domains = run_pipeline(length, genes, rules, hits)
+            base, base_domains, members, cands, regions = run_pipeline(length, genes, rules, hits, areas=True)
         except Exception as exc:  # pylint: disable=broad-except
             chk.count("base_error_" + type(exc).__name__)
             continue
         chk.count("records")
         nontrivial = len(base) > 0
-        # ---- rule order
-        if len(rules) > 1:
-            perms = [p for p in list(itertools.permutations(rules))[1:] if superiors_first(p)]
-            rng.shuffle(perms)
-            for perm in perms[:6]:
-                chk.evaluations += 1
-                chk.count("rule_permutations")
-                try:
-                    got = run_pipeline(length, genes, list(perm), hits)
-                except Exception as exc:  # pylint: disable=broad-except
-                    got = ("error", type(exc).__name__)
-                if got != (base, base_domains):
-                    chk.violation("counterexample", "detection depends on the order of the rules",
-                                  {"theorem_or_correspondence": "C07_rule_order / detect_protoclusters_and_signatures",
-                                   "input": {"length": length, "genes": genes, "hits": {k: sorted(v) for k, v in hits.items()},
-                                             "rules": rules, "permuted": list(perm)},
-                                   "base": [base, base_domains], "permuted_result": got})
-        # ---- rotation
+        if len(rules) > 1 and order_violations < 3:
+            if not check_orders(chk, rng, length, True, genes, rules, PROFILES, hits, (base, base_domains),
+                                object_orders=False):
+                order_violations += 1
         candidates = set()
         for _, s, e, _ in genes:
             candidates.update([(-s) % length, (-e) % length, (-s + 1) % length, (-e - 1) % length])
-        for product, core, full in base:
+        for _, core, full in base:
             for s, e in core + full:
                 candidates.update([(-s) % length, (-e) % length, (-(s + e) // 2) % length])
+        for parts in [c[2] for c in cands] + [r[1] for r in regions]:
+            for s, e in parts:
+                candidates.update([(-s) % length, (-e) % length])
         candidates.update(rng.randrange(length) for _ in range(3))
         ks = [k for k in sorted(candidates) if k and rotate_genes(genes, length, k) is not None]
         if any("SUPERIORS" in rule for rule in rules):
@@ -151,63 +371,95 @@ def run(chk):
         for k in ks[:6]:
             rotated = rotate_genes(genes, length, k)
             try:
-                got, _ = run_pipeline(length, rotated, rules, hits)
-                out = []
-                for product, core, full in got:
-                    out.append((product, list(core), list(full)))
+                out = run_pipeline(length, rotated, rules, hits, areas=True)
+                out = (out[0], out[2], out[3], out[4])
             except Exception as exc:  # pylint: disable=broad-except
-                out = [("error", err_code(exc), type(exc).__name__)]
-            flat = [PROP, 1, length, k, 2 * len(base)]
-            for product, core, full in base:
-                flat += enc_parts(core) + enc_parts(full)
+                out = ("error", type(exc).__name__, str(exc))
+            locs = []
+            for _, core, full in base:
+                locs += [core, full]
+            locs += [c[2] for c in cands] + [r[1] for r in regions]
+            for region in regions:
+                locs += list(region[3])
+            flat = [PROP, 1, length, k, len(locs)]
+            for loc in locs:
+                flat += enc_parts(loc)
             cases.append(flat)
             impl_outs.append(out)
             meta.append({"length": length, "genes": genes, "hits": {g: sorted(v) for g, v in hits.items()}, "rules": rules,
-                         "rotation": k, "base": base})
+                         "rotation": k, "base": base, "base_members": members, "base_candidates": cands,
+                         "base_regions": regions})
             chk.count("rotations")
-            chk.note_case(flat, nontrivial, meta[-1] if len(chk.samples) < 3 else None)
+            chk.note_case(flat, nontrivial, meta[-1] if len(chk.samples) < 4 else None)
     # expected image of every base area under each rotation, from the Coq model
     model_outs = common.run_driver(cases)
-    chk.crosscheck_vm(cases, model_outs, k=100 if chk.tier == "quick" else 600)
+    chk.crosscheck_vm(cases, model_outs, k=100 if quick else 600)
     mismatches = 0
     for flat, model, got, info in zip(cases, model_outs, impl_outs, meta):
-        expected = decode_expected(model, info["base"])
+        expected = decode_expected(model, info)
         if expected is None:
             chk.count("model_rotation_error")
             continue
-        want = sorted(expected)
-        have = sorted((p, tuple(c), tuple(f)) for p, c, f in got) if not (got and got[0][0] == "error") else got
-        if want != have:
+        if got[0] == "error":
+            spanning = any(len(region[1]) > 1 for region in expected[3])
+            if (got[1:] == ("ValueError", "regions cannot overlap") and spanning and REGION_OVERLAP_CLASS in known_classes):
+                chk.count("known_class_" + REGION_OVERLAP_CLASS)
+                continue
+            have = got
+        else:
+            have = tuple(sorted(x) for x in got)
+        if tuple(expected) != have:
             mismatches += 1
             if mismatches <= 3:
-                chk.violation("counterexample", "detection is not invariant under rotation of the origin",
-                              {"theorem_or_correspondence": "C07_rotation_pipeline / detect_protoclusters_and_signatures",
-                               "input": info, "expected_rotated": want, "implementation_on_rotated_record": have, "flat": flat})
+                level = next((name for name, w, h in zip(("protoclusters", "protocluster members", "candidate clusters",
+                                                           "regions"), expected, have) if w != h), "run")
+                chk.violation("counterexample", f"detection is not invariant under rotation of the origin ({level} differ)",
+                              {"theorem_or_correspondence": "C07_rotation_pipeline / detect_protoclusters_and_signatures, "
+                                                            "create_candidate_clusters, create_regions",
+                               "input": info, "expected_rotated": expected, "implementation_on_rotated_record": have,
+                               "flat": flat})
     chk.extra["rotation_mismatches"] = mismatches
     known_findings(chk)
     return chk.finish(RULE, trusted_extra=["the rotation of the gene coordinates is done by the harness (rotate_genes); the expected "
-                                           "image of the areas is computed by the Coq model of offset_location"])
+                                           "image of the areas is computed by the Coq model of offset_location",
+                                           "the positions of the first/last core CDS handed to the Coq removal are computed by "
+                                           "the harness from the gene list (genes of these records do not overlap)"])
 
 
 def known_findings(chk):
     """ recorded, unrepaired defects: printed only while the stored witness still reproduces """
     for finding in common.load_known_findings("C07"):
-        if finding["status"] != "known" or finding["class"] != "rotation_superior_partial_overlap":
+        if finding["status"] != "known":
             continue
         w = finding["witness"]
         genes = [tuple(g) for g in w["genes"]]
         hits = {k: set(v) for k, v in w["hits"].items()}
-        try:
-            base, _ = run_pipeline(w["length"], genes, w["rules"], hits)
-            got, _ = run_pipeline(w["length"], rotate_genes(genes, w["length"], w["rotation"]), w["rules"], hits)
-        except Exception:  # pylint: disable=broad-except
-            continue
-        if len(got) != len(base):
-            chk.known(finding["what_fails"])
+        rotated = rotate_genes(genes, w["length"], w["rotation"])
+        if finding["class"] == "rotation_superior_partial_overlap":
+            try:
+                base, _ = run_pipeline(w["length"], genes, w["rules"], hits)
+                got, _ = run_pipeline(w["length"], rotated, w["rules"], hits)
+            except Exception:  # pylint: disable=broad-except
+                continue
+            if len(got) != len(base):
+                chk.known(finding["what_fails"])
+        elif finding["class"] == REGION_OVERLAP_CLASS:
+            try:
+                run_pipeline(w["length"], genes, w["rules"], hits, areas=True)
+            except Exception:  # pylint: disable=broad-except
+                continue
+            try:
+                run_pipeline(w["length"], rotated, w["rules"], hits, areas=True)
+            except ValueError as exc:
+                if "regions cannot overlap" in str(exc):
+                    chk.known(finding["what_fails"])
+            except Exception:  # pylint: disable=broad-except
+                continue
 
 
-def decode_expected(model, base):
-    """ model output: n, then per loc: 0 nparts (s e strand)* | 1 kind """
+def decode_expected(model, info):
+    """ model output: n, then per loc: 0 nparts (s e strand)* | 1 kind
+        -> expected (protoclusters, members, candidates, regions) on the rotated record """
     pos = 1
     locs = []
     for _ in range(model[0]):
@@ -220,18 +472,50 @@ def decode_expected(model, base):
             parts.append((model[pos], model[pos + 1]))
             pos += 3
         locs.append(tuple(parts))
-    return [(product, locs[2 * i], locs[2 * i + 1]) for i, (product, _, _) in enumerate(base)]
+    base, members, cands, regions = info["base"], info["base_members"], info["base_candidates"], info["base_regions"]
+    rotated_core = {}
+    protos = []
+    for i, (product, core, _) in enumerate(base):
+        protos.append((product, locs[2 * i], locs[2 * i + 1]))
+        rotated_core[(product, core)] = locs[2 * i]
+    at = 2 * len(base)
+    new_members = [(product, rotated_core[(product, core)], inner, outer) for product, core, inner, outer in members]
+    new_cands = [(kind, products, locs[at + i], names) for i, (kind, products, _, names) in enumerate(cands)]
+    at += len(cands)
+    region_locs = locs[at:at + len(regions)]
+    at += len(regions)
+    new_regions = []
+    for (products, _, names, children), loc in zip(regions, region_locs):
+        new_regions.append((products, loc, names, tuple(sorted(locs[at:at + len(children)]))))
+        at += len(children)
+    return sorted(protos), sorted(new_members), sorted(new_cands), sorted(new_regions)
 
 
 def replay(chk, path):
     import json
     doc = json.load(open(path))
     info = doc["input"]
+    genes = [tuple(g) for g in info["genes"]]
+    hits = {k: set(v) for k, v in info["hits"].items()}
     if "rotation" in info:
-        rotated = rotate_genes([tuple(g) for g in info["genes"]], info["length"], info["rotation"])
-        print("implementation on rotated record:", run_pipeline(info["length"], rotated, info["rules"],
-                                                                 {k: set(v) for k, v in info["hits"].items()})[0])
+        rotated = rotate_genes(genes, info["length"], info["rotation"])
+        try:
+            print("implementation on rotated record:", run_pipeline(info["length"], rotated, info["rules"], hits, areas=True))
+        except Exception as exc:  # pylint: disable=broad-except
+            print("implementation on rotated record raises", type(exc).__name__, exc)
         print("expected:", doc.get("expected_rotated"))
+        return 0
+    profiles = info.get("profiles", PROFILES)
+    circular = info.get("circular", True)
+    print("rules as listed:", run_pipeline(info["length"], genes, info["rules"], hits, circular, profiles)[0])
+    if "permuted" in info:
+        print("permuted text:", run_pipeline(info["length"], genes, info["permuted"], hits, circular, profiles)[0])
+    elif "rule_order" in info:
+        objects = {rule.name: rule for rule in parse_rules(info["rules"], profiles)}
+        print("rule order", info["rule_order"], ":",
+              run_pipeline(info["length"], genes, None, hits, circular, profiles,
+                           objects=[objects[name] for name in info["rule_order"]])[0])
     else:
-        print(run_pipeline(info["length"], [tuple(g) for g in info["genes"]], info["permuted"], {k: set(v) for k, v in info["hits"].items()}))
+        print("each rule alone:", info.get("clusters_of_rules_run_alone"))
+        print("expected by the specification:", doc.get("expected_by_specification"))
     return 0
